@@ -684,6 +684,24 @@ def rule_i(ctx: Ctx) -> None:
             if isinstance(c.func, ast.Attribute) and c.func.attr in ('evaluate', 'boolean_value') and 'token' in text(c.func.value):
                 ctx.ob(rule, f'{f.qualname.split(".", 2)[-1]}: `{text(c)[:50]}` is a reviewed XPath evaluation site', f.loc(c), False,
                        'XPath evaluation outside the reviewed sites', key=f'{f.qualname}|xpath-unlisted')
+    # the typed value of an instance node (elementpath decodes the text with the schema type): same raise-set for out-of-range values
+    m = 0
+    for f in ctx.idx.iter_functions('validators'):
+        if isinstance(f.node, ast.Lambda):
+            continue
+        reads = [x for x in ast.walk(f.node) if isinstance(x, ast.Attribute) and x.attr == 'typed_value' and isinstance(x.ctx, ast.Load)]
+        if not reads:
+            continue
+        parents = enclosing_map(f.node)
+        for x in reads:
+            m += 1
+            hs = site_handlers(f, x, parents)
+            names = handler_classes(ctx, f, hs)
+            ok = covers(ctx, f, names, 'OverflowError')
+            ctx.ob(rule, f'{f.qualname.split(".", 2)[-1]}: OverflowError raised by `{text(x)}` (typed value of an instance node) is handled', f.loc(x), ok,
+                   '' if ok else 'a date / duration identity field with a huge year makes elementpath raise ElementPathOverflowError, which no handler on the way to iter_errors() '
+                   'catches: <i k="999999999999-01-01"/> under an xs:key with an xs:date field leaves validation as a foreign exception', key=f'{f.qualname}|typed-value')
+    ctx.floor(rule, 'typed-value reads of instance nodes', m, 1)
     ctx.trusted.append('raise-set of elementpath evaluation: ElementPathError subclasses and built-in OverflowError (reviewed table XPATH_RAISES)')
     ctx.explain('C11.i: handler coverage of the three sites that evaluate schema XPath tests on instance data, over the reviewed raise-set.')
 
